@@ -3,7 +3,7 @@
 //! functions: AstSize::cost Extractor::extract WithOrdRev::cmp WithOrdRev::partial_cmp
 //! Bound: AstSize::cost on nodes with 0..4 children and child costs from {0, 1, 2, 7, u64::MAX-1, u64::MAX};
 //! WithOrdRev::partial_cmp / cmp on all pairs of costs from {0, 1, 2, 3, 10, u64::MAX}.
-//! Extractor::new / Extractor::extract (outside the contracts: BinaryHeap, class_nf, usages): 18 hand-written e-graphs
+//! Extractor::new / Extractor::extract (outside the contracts: BinaryHeap, class_nf, usages): 21 hand-written e-graphs
 //! with redundant slots / symmetric classes plus 150 (deep: 3000) pseudo-random ones (a term of depth <= 3 over a
 //! lambda/arithmetic language, a random subset of 17 rules, <= 3 rounds, <= 300 nodes); after every round EVERY class is
 //! extracted with AstSize (public entry point) and with five cost functions of the kinds C06 names (size, depth-weighted
@@ -235,6 +235,11 @@ pub fn run(only: &[String]) -> Vec<String> {
             (vec!["zero", "one", "(g zero)", "(add zero (g one))"], vec![(0, 1)]),
             (vec!["one", "zero", "(g one)", "(mul (g zero) one)", "(lam $1 (add (var $1) zero))"], vec![(0, 1)]),
             (vec!["(var $1)", "zero", "one", "(sub (var $1) (var $1))", "(g (sub (var $2) (var $2)))"], vec![(1, 3), (2, 3)]),
+            // one child class at two positions of a node, over the same slots in ANOTHER arrangement (a non-symmetric class): the two
+            // sub-terms differ although class and slot set agree (seed C06-j)
+            (vec!["(sub (sub (var $1) (var $2)) (sub (var $2) (var $1)))"], vec![]),
+            (vec!["(add (sub (var $1) (var $2)) (sub (var $2) (var $1)))", "(mul (f3 (var $1) (var $2) (var $3)) (f3 (var $3) (var $1) (var $2)))", "(lam $1 (lam $2 (mul (sub (var $1) (var $2)) (sub (var $2) (var $1)))))"], vec![]),
+            (vec!["(sub (var $1) (var $2))", "(g (sub (var $1) (var $2)))", "(mul (g (sub (var $1) (var $2))) (g (sub (var $2) (var $1))))", "(f3 (sub (var $1) (var $2)) (sub (var $2) (var $1)) (sub (var $1) (var $2)))"], vec![(0, 1)]),
         ];
         for (adds, unions) in hand {
             verif_case(format!("extract after: add {:?}; union {:?}", adds, unions));
